@@ -8,6 +8,9 @@ use std::io::{BufRead, Write};
 
 pub mod aj;
 pub mod assets;
+pub mod tirj;
+pub mod ctx;
+pub mod staging;
 
 thread_local! {
     static LAST_PANIC: RefCell<Option<(String, String)>> = RefCell::new(None);
@@ -57,6 +60,7 @@ fn dispatch(case: &Value) -> Value {
     let cmd = case["cmd"].as_str().unwrap_or("");
     match cmd {
         "assets" => assets::run(case),
+        "staging" => staging::run(case),
         "ping" => json!({"pong": true}),
         other => json!({"tool_error": format!("unknown cmd {other}")}),
     }
